@@ -162,17 +162,17 @@ Section RunThm.
   Definition spec_select (ts : list (str * str)) (cl : N) : option str :=
     Lookup.nearest (Lookup.tmap cname ts) (LookupThm.chain bases rank cl).
 
-  Definition memo_ok (ts : list (str * str)) (memo : Lookup.cache) : Prop := LookupThm.consistent (Lookup.tmap cname ts) memo.
+  Definition memo_ok (ts : list (str * str)) (memo : Lookup.cache) : Prop := LookupThm.consistent (Lookup.tmap cname ts) Lookup.W_FS memo.
 
   Lemma select_transparent ts memo cl :
     memo_ok ts memo ->
     snd (select bases cname fuel ts memo cl) = spec_select ts cl /\ memo_ok ts (fst (select bases cname fuel ts memo cl)).
   Proof.
     intros Hm. unfold select.
-    rewrite (LookupThm.bfs_scan bases rank Hsingle Hrank (Lookup.tmap cname ts) fuel cl [] memo (Hfuel cl))
+    rewrite (LookupThm.bfs_scan bases rank Hsingle Hrank (Lookup.tmap cname ts) Lookup.W_FS fuel cl [] memo (Hfuel cl))
       by (intros d []).
-    destruct (LookupThm.scan (Lookup.tmap cname ts) memo (LookupThm.chain bases rank cl)) as [m' r] eqn:E.
-    destruct (LookupThm.scan_consistent _ _ _ _ _ Hm E) as [H1 H2]. cbn [fst snd]. split; assumption.
+    destruct (LookupThm.scan (Lookup.tmap cname ts) Lookup.W_FS memo (LookupThm.chain bases rank cl)) as [m' r] eqn:E.
+    destruct (LookupThm.scan_consistent _ _ _ _ _ _ Hm E) as [H1 H2]. cbn [fst snd]. split; assumption.
   Qed.
 
   Variable lel_shared : bool.
@@ -211,7 +211,7 @@ Section RunThm.
   Lemma alone_spec cf ts pps0 o : alone cf ts pps0 o = snd (file_spec cf ts pps0 o).
   Proof.
     unfold GenState.alone.
-    destruct (gen_file_spec cf ts [] UniqueNameGenerator_init [] pps0 o (Forall_nil _) (LookupThm.consistent_nil _)) as (_ & _ & H).
+    destruct (gen_file_spec cf ts [] UniqueNameGenerator_init [] pps0 o (Forall_nil _) (LookupThm.consistent_nil _ _)) as (_ & _ & H).
     rewrite <- H. reflexivity.
   Qed.
 
